@@ -91,4 +91,70 @@ theorem formatItems_none_iff (t : DT) (its : List Item) :
         have : ¬ (its.any Item.failsNaive = true) := fun hc => by rw [ih.2 hc] at h2; cases h2
         simp [hn, this]
 
+/-! ### a custom format with milliseconds: `%Y-%m-%d %H:%M:%S%.3f` -/
+
+/-- `%Y-%m-%d %H:%M:%S%.3f` -/
+def fmtMs : Str := fmtDatetime ++ ['%', '.', '3', 'f']
+
+theorem items_fmtMs : items fmtMs =
+    [num0 .year, .literal ['-'], num0 .month, .literal ['-'], num0 .day, .space [' '],
+     num0 .hour, .literal [':'], num0 .minute, .literal [':'], num0 .second, .fixed .nanosecond3] := by decide
+
+theorem strftime_ms (t : DT) :
+    strftime t fmtMs = some (datetimeText t.year t.month t.day t.hour t.minute t.second ++ '.' :: pad 3 t.milli) := by
+  simp [strftime, items_fmtMs, formatItems, fmtItem, fmtNumeric, fmtFixed, num0, writeTwo_zero, writeYear_zero,
+    datetimeText, dateText, timeText]
+
+theorem number_3 (a b c : Nat) (ha : a < 10) (hb : b < 10) (hc : c < 10) (r : Str) (min : Nat) (hmin : min ≤ 3) :
+    number (a.digitChar :: b.digitChar :: c.digitChar :: r) min 3 = .ok (r, a * 100 + b * 10 + c) := by
+  rw [number_def _ _ _ (by simp; omega), numberGo_dc _ _ a ha _ _ _ (by omega) (by simp [i64Max]; omega),
+    numberGo_dc _ _ b hb _ _ _ (by omega) (by simp [i64Max]; omega),
+    numberGo_dc _ _ c hc _ _ _ (by omega) (by simp [i64Max]; omega), numberGo_stop _ _ _ _ _ (by omega)]
+  congr 2; omega
+
+/-- the item `%.3f` on `.mmm` at the end of the input -/
+theorem item_dot3f (ml : Nat) (hml : ml < 1000) (oy : Option Int) (om od oh1 oh2 omi os : Option Nat) :
+    parseItem (.fixed .nanosecond3) ('.' :: pad 3 ml)
+      { year := oy, month := om, day := od, hourDiv12 := oh1, hourMod12 := oh2, minute := omi, second := os } =
+      .ok ([], { year := oy, month := om, day := od, hourDiv12 := oh1, hourMod12 := oh2, minute := omi, second := os, nanosecond := some (ml * 1000000) }) := by
+  have e : ml / 100 * 100 + ml / 10 % 10 * 10 + ml % 10 = ml := by omega
+  have hr : inR 0 999999999 ((ml : Int) * 1000000) = true := inR_true (by omega) (by omega)
+  have hn : ((ml : Int) * 1000000).toNat = ml * 1000000 := by omega
+  simp only [parseItem, parseFixed, pad3_spec ml hml, setNanoFrom, nanosecondFixed,
+    number_3 _ _ _ (by omega : ml / 100 < 10) (by omega : ml / 10 % 10 < 10) (by omega : ml % 10 < 10) [] 3 (by omega), e]
+  simp [Parsed.setNanosecond, hr, hn, setIf, Except.map]
+
+section
+variable {N : Type} [NumX N]
+
+theorem stringToDatetime_ms (y : Int) (m d h mi s ml : Nat) (h0 : 0 ≤ y) (h1 : y ≤ 9999)
+    (hv : validDate y m d = true) (hh : h < 24) (hmi : mi < 60) (hs : s < 60) (hml : ml < 1000) :
+    stringToDatetime [(.str (datetimeText y m d h mi s ++ '.' :: pad 3 ml) : Value N), .str fmtMs] =
+      some (.ok (encode ⟨daysFromCivil y m d, (h * 3600 + mi * 60 + s) * 1000 + ml⟩)) := by
+  have hb := validDate_bounds hv
+  have hy : ((y.toNat : Nat) : Int) = y := by omega
+  rw [datetimeText_chars y m d h mi s h0 h1 (by omega) (by omega) (by omega) (by omega) (by omega)]
+  simp only [stringToDatetime, defaultString, List.getElem?_cons_succ, List.getElem?_cons_zero, parseAll, items_fmtMs,
+    List.cons_append, List.nil_append]
+  rw [parse_date_chars y.toNat m d (by omega) (by omega) (by omega), if_pos hb,
+    parseItems_ok (item_space_dc _ _ (by omega) _ _),
+    parse_time_chars' h mi s (by omega) (by omega) (by omega) (some ((y.toNat : Nat) : Int)) (some m) (some d),
+    if_pos ⟨hh, hmi, by omega⟩, hy, parseItems_ok (item_dot3f ml hml _ _ _ _ _ _ _)]
+  have ht := toNaiveTime_hms
+    { year := some y, month := some m, day := some d, hourDiv12 := some (h / 12), hourMod12 := some (h % 12), minute := some mi, second := some s, nanosecond := some (ml * 1000000) }
+    h mi s (some (ml * 1000000)) rfl rfl rfl rfl rfl
+  have hdte := toNaiveDate_ymd_of
+    { year := some y, month := some m, day := some d, hourDiv12 := some (h / 12), hourMod12 := some (h % 12), minute := some mi, second := some s, nanosecond := some (ml * 1000000) }
+    y m d none rfl rfl rfl rfl rfl rfl rfl rfl rfl rfl rfl rfl rfl
+  rw [if_pos hv] at hdte
+  have h60 : ¬ s = 60 := by omega
+  have h4 : min s 59 = s := by omega
+  have hnano : ¬ (1000000000 ≤ ml * 1000000) := by omega
+  have hdiv : ml * 1000000 / 1000000 = ml := by omega
+  simp only [parseItems, datetimeOverflow_ok _ 0 rfl _ _ hdte ht, Bool.false_eq_true, if_false, bind, Except.bind,
+    Parsed.toNaiveDatetime, hdte, ht, optEqOr, if_true]
+  simp [rejectLeap, h60, h4, hnano, hdiv, finish, pure, Except.pure, NDT.millis, NDT.timestamp, encode, encodeMs, DT.totalMs, msPerDay]
+  congr 2; omega
+end
+
 end Slac.Time
